@@ -24,9 +24,17 @@ def main():
     rc0, out0 = sh("/venv/bin/python %s/demo.py" % sd, cwd=wt, env=env, timeout=600)
     res["demo_clean_rc"] = rc0
     rc, out = sh("git apply %s/patch.diff" % sd, cwd=wt)
+    if rc != 0:
+        # the tree moved on (later fix commits): try a 3-way merge of the patch
+        rc, out = sh("git apply -3 %s/patch.diff && git reset -q" % sd, cwd=wt)
+        res["apply_3way"] = True
     res["apply_rc"] = rc
     if rc != 0:
         res["apply_out"] = out[-500:]
+        json.dump(res, open(os.path.join(sd, "eval.json"), "w"), indent=1)
+        print(json.dumps(res, indent=1))
+        sh("git checkout -- . && git clean -fdq", cwd=wt)
+        return
     rc1, out1 = sh("/venv/bin/python %s/demo.py" % sd, cwd=wt, env=env, timeout=600)
     res["demo_patched_rc"] = rc1
     res["demo_patched_tail"] = out1[-600:]
